@@ -8,8 +8,9 @@ pcr  <fwd> <rev> <ef> <er> <min> <max> <ext> <full> <circ> <tpl>[,<tpl>...]
           d/from+1..to/amplicon/forward_match/forward_error/reverse_match/reverse_error
 frag <fwd> <rev> <e> <min> <max> <ext> <full> <minsize> <length> <overlap> <tpl>
        -> <fragment coordinates a..b,… | whole> <amplicons per fragment as above>
-cli  <fwd> <rev> <e> <min> <max> <delta> <full> <tpl>
-       -> the amplicons d/fragment/from+1 (in the template)/amplicon/…, sorted (fragments cut with the parameters of CLIPCR)
+cli  <fwd> <rev> <e> <min> <max> <delta> <full> [<circ> <frag>] <tpl>      (default: circ = 0, frag = 1)
+       -> the amplicons d/fragment/from+1 (in the template)/amplicon/…, sorted (options of CLIPCR; with frag = 1 the
+          fragments are cut with the parameters of CLIPCR)
 ```
 byte strings in hex. -/
 namespace ObiVerif.Driver.C11
@@ -33,6 +34,34 @@ def insStr (x : String) : List String → List String
   | [] => [x]
   | y :: ys => if x ≤ y then x :: y :: ys else y :: insStr x ys
 def sortStr (l : List String) : List String := l.foldr insStr []
+
+/-- `obipcr.CLIPCR` on one template: the options of `cliOpts`; with `--fragmented` the template goes through `IFragments` with
+the parameters of `cliFragParams` and every piece through `_PCRSlice` with the same options (`--circular` included) -/
+def runCli (fw rv e mn mx delta full circ frag tpl : String) : String :=
+  match unhex fw, unhex rv, e.toNat?, mn.toInt?, mx.toInt?, delta.toInt?, bool? full, bool? circ, bool? frag, unhex tpl with
+  | some fw, some rv, some e, some mn, some mx, some delta, some full, some circ, some frag, some tpl =>
+    if e > 63 || fw.length ≥ Gen.apatMaxPatLen || rv.length ≥ Gen.apatMaxPatLen || mx < 1 then "bad-op"
+    else
+      let o : Opts := cliOpts mn mx delta full circ
+      let t := tpl.map lowerByte
+      let (minsize, length, overlap) := cliFragParams mx fw.length rv.length delta
+      match mkPrimers fw rv e e, (if frag then fragments minsize length overlap t.length else some none) with
+      | some P, some frs =>
+        let cuts : List (String × Nat × Nat) := match frs with
+          | none => [("whole", 0, t.length)]
+          | some l => l.map fun (ab : Nat × Nat) => (s!"{ab.1 + 1}..{ab.2}", ab.1, ab.2)
+        if circ && cuts.any (fun c => c.2.2 - c.2.1 < Gen.apatMaxPatLen && max fw.length rv.length > c.2.2 - c.2.1) then "unmodelled"
+        else
+        match pcrSlice P o (cuts.map fun c => (t.drop c.2.1).take (c.2.2 - c.2.1)) with
+        | .error b => showBad b
+        | .ok per =>
+          let all := (cuts.zip per).flatMap fun (cl : (String × Nat × Nat) × List Amplicon) =>
+            cl.2.map fun x => s!"{if x.isForward then "f" else "r"}/{cl.1.1}/{x.idFrom + (cl.1.2.1 : Int)}/{hex x.seq}/{hex x.fmatch}/{x.ferr}/{hex x.rmatch}/{x.rerr}"
+          let s := sortStr all
+          if s.isEmpty then "-" else ",".intercalate s
+      | none, _ => "fatal"
+      | _, none => "bad-op"
+  | _, _, _, _, _, _, _, _, _, _ => "bad-op"
 
 def run (line : String) : String :=
   match words line with
@@ -72,28 +101,8 @@ def run (line : String) : String :=
           | .ok per => s!"{names} {"|".intercalate (per.map showList)}"
         | _, _ => "bad-op"
     | _, _, _, _, _, _, _, _, _, _, _ => "bad-op"
-  | ["cli", fw, rv, e, mn, mx, delta, full, tpl] =>
-    match unhex fw, unhex rv, e.toNat?, mn.toInt?, mx.toInt?, delta.toInt?, bool? full, unhex tpl with
-    | some fw, some rv, some e, some mn, some mx, some delta, some full, some tpl =>
-      if e > 63 || fw.length ≥ Gen.apatMaxPatLen || rv.length ≥ Gen.apatMaxPatLen || mx < 1 then "bad-op"
-      else
-        let o : Opts := ⟨mn, mx, false, if delta ≥ 0 then delta else -1, full⟩
-        let t := tpl.map lowerByte
-        let (minsize, length, overlap) := cliFragParams mx fw.length rv.length delta
-        match mkPrimers fw rv e e, fragments minsize length overlap t.length with
-        | some P, some frs =>
-          let cuts : List (String × Nat × Nat) := match frs with
-            | none => [("whole", 0, t.length)]
-            | some l => l.map fun (ab : Nat × Nat) => (s!"{ab.1 + 1}..{ab.2}", ab.1, ab.2)
-          match pcrSlice P o (cuts.map fun c => (t.drop c.2.1).take (c.2.2 - c.2.1)) with
-          | .error b => showBad b
-          | .ok per =>
-            let all := (cuts.zip per).flatMap fun (cl : (String × Nat × Nat) × List Amplicon) =>
-              cl.2.map fun x => s!"{if x.isForward then "f" else "r"}/{cl.1.1}/{x.idFrom + (cl.1.2.1 : Int)}/{hex x.seq}/{hex x.fmatch}/{x.ferr}/{hex x.rmatch}/{x.rerr}"
-            let s := sortStr all
-            if s.isEmpty then "-" else ",".intercalate s
-        | _, _ => "bad-op"
-    | _, _, _, _, _, _, _, _ => "bad-op"
+  | ["cli", fw, rv, e, mn, mx, delta, full, tpl] => runCli fw rv e mn mx delta full "0" "1" tpl
+  | ["cli", fw, rv, e, mn, mx, delta, full, circ, frag, tpl] => runCli fw rv e mn mx delta full circ frag tpl
   | _ => "bad-op"
 
 end ObiVerif.Driver.C11
